@@ -99,4 +99,57 @@ CLAIMED.update({
     },
 })
 
+CLAIMED.update({
+    'C01': {
+        'text': 'For every family of geo sets (pointwise Boolean abstraction, all truth-table rows enumerated): generator post-conditions, the '
+                'greedy invariant (initial pair, control toggle, treatment addition) and the admitted-set formulas imply that every constructed '
+                'design is within eligibility, contains the fixed and must-include geos, never a must-exclude geo, and has disjoint groups; '
+                'structural rules tie pushed objects to these expressions (TBRMMDesign constructor guards, index-to-ID mapping, per-access '
+                'index install).',
+        'design_ref': 'DESIGN.md section 4, C01',
+        'note': 'Not decided: cardinality-dependent behaviour (sizes are C02), that a search returns anything, distinctness of IDs inside pandas.' + TB,
+        'technique': 'pointwise Boolean abstraction of set algebra (exhaustive truth tables) + provenance rules',
+    },
+    'C02': {
+        'text': 'For both searches and all six constraints, under the assumption that the constraint is specified, every CFG path within the '
+                'iteration binding the pushed groups passes a range test that normalises to the specification row instantiated at exactly the '
+                'treatment/control expressions of the pushed design (bounds compared algebraically, integer-valued bounds inclusive) and leaves '
+                'it on the accepting branch; sizes and geo ratio of the exhaustive search by provenance (range(lo, hi+1), generators yield '
+                'sets of exactly the requested size); tests are vacuous when the parameter is None.',
+        'design_ref': 'DESIGN.md section 4, C02',
+        'note': 'Not decided: the numeric values (required impact, shares) and float round-off on real-valued bounds.' + TB,
+        'technique': 'must-pass-through on the CFG under is-None assumptions + interval-predicate normaliser (sympy normal forms)',
+    },
+    'C03': {
+        'text': 'Structure of the enumeration: the three loops iterate the complete size range and both generators with no early exit; every '
+                'way out of an iteration before results.push is classified against an allow-list of six skip reasons by the provenance of its '
+                'controlling conditions; the pruning list is written only under "optimistic budget > max" and tested as stored-subset-of-'
+                'candidate; push is unconditional for non-skipped iterations; the Scoring tuple has the documented order and provenance; both '
+                '__lt__ are tuple <.',
+        'design_ref': 'DESIGN.md section 4, C03',
+        'note': 'Not decided: that returned scores are maximal over the feasible set (needs run-time enumeration), ties, NaN ordering.' + TB,
+        'technique': 'CFG loop-exit audit + control-dependence classification + table agreement',
+    },
+    'C04': {
+        'text': 'At every construction site of a pushed TBRMMDesign the diagnostics object was built from the aggregate series of the pushed '
+                'treatment group, its control series last set from the pushed control group, and the score computed from that object in that '
+                'state; reused diagnostics objects escape only through deep copies (or with the score forced first); the data window is '
+                'narrowed to the last n_pretest_max columns before use; the index setter and aggregates use one source in one order; the '
+                'replaced last score entry is algebraically budget_range[1]/required_impact and only under a budget range; greedy never '
+                'rewrites a pushed score.',
+        'design_ref': 'DESIGN.md section 4, C04',
+        'note': 'Not decided: numeric equality with sums recomputed from the raw frame and with recomputed test outcomes.' + TB,
+        'technique': 'reaching-definition / def-use provenance + loop-carried-mutable escape rule + algebraic identity',
+    },
+    'C13': {
+        'text': 'Structural inclusion of feasible sets: greedy designs satisfy the same six legality clauses the generators guarantee '
+                '(Boolean proofs of C01), both searches enforce the same spec rows for sizes, geo ratio and volume ratio on the pushed pair '
+                '(C02 analysis, sibling agreement), both score through TBRMMScore of the same diagnostics provenance with score entries '
+                'rewritten only under a budget range, and both read eligibility classes only through self.geo_assignments.',
+        'design_ref': 'DESIGN.md section 4, C13',
+        'note': 'Not decided: the score comparison itself and whether the exhaustive search finds nothing exactly when greedy does.' + TB,
+        'technique': 'composition of Boolean-abstraction proofs, constraint-enforcement analysis and provenance rules (sibling cross-check)',
+    },
+})
+
 NOT_APPLICABLE = {}
